@@ -41,7 +41,7 @@ RULE = (
     'thorough 16 x 300.'
 )
 ASSUMPTIONS = [
-    '/bin/bash and /bin/sh execute `echo >> file`, `cat`, `exit N` faithfully; appends of < 100 bytes to the shared log by sequential subprocesses are ordered',
+    '/bin/bash and /bin/sh execute `echo >> file`, `read < file`, `exit N` faithfully; appends of < 100 bytes to the shared log by sequential subprocesses are ordered',
     'the generator\'s own edge list (what it asked the DSL for) is the dependency relation of the property',
     'Job._job_id is the job number the property speaks about',
 ]
@@ -283,7 +283,8 @@ def execute(hb, case):
                             ref = f'{src.grp.a}'
                         else:
                             ref = f'{src.out}'
-                        jobs[j].command(f'echo "READ {j} {d} $(cat {ref} 2>/dev/null)" >> {qlog}')
+                        # `read` is a builtin: no extra fork/exec per consumed resource
+                        jobs[j].command(f'X=; read -r X < {ref} 2>/dev/null; echo "READ {j} {d} $X" >> {qlog}')
                     elif name == 'exit':
                         jobs[j].command(f'exit {1 if case["fails"][j] else 0}')
                     else:
